@@ -177,9 +177,78 @@ func eachInstr(fn *ssa.Function, f func(ssa.Instruction)) {
 
 // withAnon returns fn and all functions nested in it.
 func withAnon(fn *ssa.Function) []*ssa.Function {
+	return withAnonSeen(fn, map[*ssa.Function]bool{})
+}
+
+// withAnonSeen: fn, its closures, and — as if they were closures of fn — the functions and methods
+// the pinned tree does not have that fn (or one of those) calls or hands on as a function value and
+// that the normalisation pass could not splice back (a closure turned into a named function or into
+// a method of a new type, a recursive helper). What they do is part of what fn does.
+func withAnonSeen(fn *ssa.Function, seen map[*ssa.Function]bool) []*ssa.Function {
+	if seen[fn] {
+		return nil
+	}
+	seen[fn] = true
 	out := []*ssa.Function{fn}
 	for _, a := range fn.AnonFuncs {
-		out = append(out, withAnon(a)...)
+		out = append(out, withAnonSeen(a, seen)...)
+	}
+	if adoptNewFuncs {
+		for _, t := range newFuncsUsedBy(fn) {
+			out = append(out, withAnonSeen(t, seen)...)
+		}
+	}
+	return out
+}
+
+// adoptNewFuncs switches the adoption of unspliced new functions on. Off: the rules that need it ask
+// closuresOf; switched on for every rule it moved pitfall and framing instances between functions
+// on ninety of the stored refactorings.
+var adoptNewFuncs = false
+
+// newFuncsUsedBy: repository functions with a body that the pinned tree does not declare and that
+// fn calls statically or mentions as a function value (a callback, a method value).
+func newFuncsUsedBy(fn *ssa.Function) []*ssa.Function {
+	var out []*ssa.Function
+	dup := map[*ssa.Function]bool{}
+	add := func(t *ssa.Function) {
+		if t == nil || t == fn || dup[t] || t.Blocks == nil || t.Parent() != nil || t.Pkg == nil || !isRepoPkg(t.Pkg.Pkg.Path()) {
+			return
+		}
+		if k := ssaDeclKey(t); k == "" || baselineFuncs[k] {
+			return
+		}
+		dup[t] = true
+		out = append(out, t)
+	}
+	for _, b := range fn.Blocks {
+		for _, in := range b.Instrs {
+			if ci, ok := in.(ssa.CallInstruction); ok {
+				add(ci.Common().StaticCallee())
+			}
+			for _, op := range in.Operands(nil) {
+				if *op == nil {
+					continue
+				}
+				switch x := (*op).(type) {
+				case *ssa.Function:
+					add(x)
+				case *ssa.MakeClosure:
+					if f, ok := x.Fn.(*ssa.Function); ok && f.Parent() == nil && f.Synthetic == "" {
+						add(f)
+					} else if ok && f.Synthetic != "" {
+						// the wrapper go/ssa makes for `x.method` used as a value: the method behind it
+						for _, b2 := range f.Blocks {
+							for _, in2 := range b2.Instrs {
+								if c2, ok := in2.(ssa.CallInstruction); ok {
+									add(c2.Common().StaticCallee())
+								}
+							}
+						}
+					}
+				}
+			}
+		}
 	}
 	return out
 }
@@ -1249,4 +1318,17 @@ func constBoolDeep(v ssa.Value, g *ssa.Function) (bool, bool) {
 		return false, false
 	}
 	return constBool(st.Val)
+}
+
+// closuresOf: the function literals of fn; when it has none, the functions and methods the pinned
+// tree does not have that fn starts, calls or hands on instead (a closure written as a named function
+// or as a method of a small new type).
+func closuresOf(fn *ssa.Function) []*ssa.Function {
+	if fn == nil {
+		return nil
+	}
+	if len(fn.AnonFuncs) > 0 {
+		return fn.AnonFuncs
+	}
+	return newFuncsUsedBy(fn)
 }
